@@ -1208,6 +1208,20 @@ theorem bodyF_not_absent {α : Type} (c : Cons) (op : Tag → Content → Prog (
     repeat' split
     all_goals simp
 
+theorem ok_none_iff (c c' : Cons) (st st' : σ) (g g' : G0) :
+    (Except.ok ((none, c, st), g) : Res ((Option Unit × Cons × σ) × G0)) = .ok ((none, c', st'), g') ↔
+      (some (c, g) = some (c', g') ∧ st' = st) := by
+  constructor
+  · intro h; cases h; exact ⟨rfl, rfl⟩
+  · rintro ⟨h, rfl⟩; cases h; rfl
+
+theorem ok_none_iff' {α : Type} (c c' : Cons) (g g' : G0) :
+    (Except.ok ((none, c), g) : Res ((Option α × Cons) × G0)) = .ok ((none, c'), g') ↔
+      some (c, g) = some (c', g') := by
+  constructor
+  · intro h; cases h; rfl
+  · intro h; cases h; rfl
+
 /-- the optional generic read (`process_next_value(None, op)`, any closure) reports absence exactly
     as `absentF` says -/
 theorem pnv_absent_iff {α : Type} (c : Cons) (op : Tag → Content → Prog (α × Content)) (g : G0)
@@ -1215,16 +1229,14 @@ theorem pnv_absent_iff {α : Type} (c : Cons) (op : Tag → Content → Prog (α
     pnvF c op g = .ok ((none, c'), g') ↔ absentF c g = some (c', g') := by
   unfold pnvF absentF
   by_cases h1 : c.state = .done
-  · simp only [h1, if_true, Except.ok.injEq, Prod.mk.injEq, Option.some.injEq, true_and]
+  · simp only [if_pos h1]; exact ok_none_iff' _ _ _ _
   · by_cases h2 : c.state = .definite ∧ g.limit = none
-    · simp [h1, h2]
+    · simp [if_neg h1, if_pos h2]
     · by_cases h3 : c.state = .definite ∧ g.limit = some 0
-      · simp only [h1, h2, h3, and_self, if_true, if_false, Except.ok.injEq, Prod.mk.injEq, Option.some.injEq,
-          true_and]
+      · simp only [if_neg h1, if_neg h2, if_pos h3]; exact ok_none_iff' _ _ _ _
       · by_cases h4 : c.state = .unbounded ∧ g.view = []
-        · simp only [h1, h2, h3, h4, and_self, if_true, if_false, Except.ok.injEq, Prod.mk.injEq,
-            Option.some.injEq, true_and]
-        · simp only [h1, h2, h3, h4, if_false]
+        · simp only [if_neg h1, if_neg h2, if_neg h3, if_pos h4]; exact ok_none_iff' _ _ _ _
+        · simp only [if_neg h1, if_neg h2, if_neg h3, if_neg h4]
           cases hH : headerF c.mode g with
           | none => simp
           | some r =>
@@ -1259,6 +1271,15 @@ theorem headerF_ident (m : Mode) (g : G0) (id : Ident) (len? : Option Nat) (g2 :
       simp only [hl, Option.some.injEq, Prod.mk.injEq] at h
       exact ⟨k, by rw [h.1.1]⟩
 
+theorem stepF_nil (c : Cons) (filter : σ → Tag → Bool → Nat → Option σ) (fuel : Nat) (st : σ) (g : G0) :
+    stepF c filter fuel [] st g =
+      if c.state = .unbounded ∧ g.view = [] then .ok ((none, c, st), g)
+      else match headerF c.mode g with
+        | none => .error .content
+        | some ((id, len?), g2) => sbodyF c filter fuel [] st g2 id len? := by
+  unfold stepF
+  simp only [true_and]
+
 /-- **`skip_opt` reports absence exactly where an optional read would**, leaving the same
     `Constructed` state and source, and without having called the filter -/
 theorem skip_absent_iff (c : Cons) (filter : σ → Tag → Bool → Nat → Option σ) (st : σ) (g : G0)
@@ -1267,31 +1288,22 @@ theorem skip_absent_iff (c : Cons) (filter : σ → Tag → Bool → Nat → Opt
   rw [run_skipOpt]
   unfold absentF
   by_cases h1 : c.state = .done
-  · simp only [h1, if_true, Except.ok.injEq, Prod.mk.injEq, Option.some.injEq, true_and]
-    constructor
-    · rintro ⟨⟨a, b⟩, d⟩; exact ⟨⟨a, d⟩, b.symm⟩
-    · rintro ⟨⟨a, d⟩, b⟩; exact ⟨⟨a, b.symm⟩, d⟩
+  · simp only [if_pos h1]; exact ok_none_iff _ _ _ _ _ _
   · by_cases h2 : c.state = .definite ∧ g.limit = none
-    · simp [h1, h2]
+    · simp [if_neg h1, if_pos h2]
     · by_cases h3 : c.state = .definite ∧ g.limit = some 0
-      · simp only [h1, h2, h3, and_self, if_true, if_false, Except.ok.injEq, Prod.mk.injEq, Option.some.injEq,
-          true_and]
-        constructor
-        · rintro ⟨⟨a, b⟩, d⟩; exact ⟨⟨a, d⟩, b.symm⟩
-        · rintro ⟨⟨a, d⟩, b⟩; exact ⟨⟨a, b.symm⟩, d⟩
-      · simp only [h1, h2, h3, if_false]
+      · simp only [if_neg h1, if_neg h2, if_pos h3]; exact ok_none_iff _ _ _ _ _ _
+      · simp only [if_neg h1, if_neg h2, if_neg h3]
         obtain ⟨N0, rfl⟩ : ∃ N0, N = N0 + 1 := ⟨N - 1, by omega⟩
         constructor
         · intro h
           rcases (converse_all c filter (N0 + 1)).1 [] st g _ g' hf h with ⟨_, _, hall⟩ | ⟨rest0, id, k, hs, _⟩ |
             ⟨f, t, rest, st1, N1, hpv, hN, hfil, hrun⟩
-          · rw [skip_step _ _ _ _ _ _ hf] at h
-            unfold stepF at h
+          · rw [skip_step _ _ _ _ _ _ hf, stepF_nil] at h
             by_cases h4 : c.state = .unbounded ∧ g.view = []
-            · simp only [h4, and_self, if_true, Except.ok.injEq, Prod.mk.injEq, true_and] at h ⊢
-              obtain ⟨⟨a, b⟩, d⟩ := h
-              exact ⟨⟨a, d⟩, b.symm⟩
-            · simp only [h4, true_and, if_false] at h ⊢
+            · simp only [if_pos h4] at h ⊢
+              exact (ok_none_iff _ _ _ _ _ _).mp h
+            · simp only [if_neg h4] at h ⊢
               cases hH : headerF c.mode g with
               | none => simp [hH] at h
               | some r =>
@@ -1305,9 +1317,11 @@ theorem skip_absent_iff (c : Cons) (filter : σ → Tag → Bool → Nat → Opt
                 · simp [hcn] at h
                 · by_cases hz : len? = some 0
                   · by_cases hi : c.state = .indefinite
-                    · simp [hcn, hz, hi] at h ⊢
-                      obtain ⟨⟨a, b⟩, d⟩ := h
-                      exact ⟨⟨a, d⟩, b.symm⟩
+                    · have hcn' : id.constructed = false := by simpa using hcn
+                      have hcond : c.state = .indefinite ∧ id.constructed = false ∧ len? = some 0 := ⟨hi, hcn', hz⟩
+                      simp only [if_pos hcond]
+                      simp only [hcn, hz, if_pos hi, Bool.false_eq_true, if_false, ne_eq, not_true_eq_false] at h
+                      exact (ok_none_iff _ _ _ _ _ _).mp h
                     · simp [hcn, hz, hi] at h
                   · simp [hcn, hz] at h
           · cases hs
@@ -1315,23 +1329,23 @@ theorem skip_absent_iff (c : Cons) (filter : σ → Tag → Bool → Nat → Opt
             simp at hrun
         · rintro ⟨h, hst⟩
           subst hst
-          rw [skip_step _ _ _ _ _ _ hf]
-          unfold stepF
+          rw [skip_step _ _ _ _ _ _ hf, stepF_nil]
           by_cases h4 : c.state = .unbounded ∧ g.view = []
-          · simp only [h4, and_self, if_true, Option.some.injEq, Prod.mk.injEq] at h ⊢
-            rw [h.1, h.2]
-          · simp only [h4, true_and, if_false] at h ⊢
+          · simp only [if_pos h4] at h ⊢
+            exact (ok_none_iff _ _ _ _ _ _).mpr ⟨h, rfl⟩
+          · simp only [if_neg h4] at h ⊢
             cases hH : headerF c.mode g with
             | none => simp [hH] at h
             | some r =>
               obtain ⟨⟨id, len?⟩, g2⟩ := r
               simp only [hH] at h ⊢
               by_cases hcond : isEocIdent id = true ∧ c.state = .indefinite ∧ id.constructed = false ∧ len? = some 0
-              · simp only [hcond, and_self, if_true, Option.some.injEq, Prod.mk.injEq] at h
+              · simp only [if_pos hcond] at h
                 obtain ⟨he, hi, hcn, hz⟩ := hcond
                 unfold sbodyF
-                simp [he, hi, hcn, hz, h.1, h.2]
-              · simp [hcond] at h
+                simp only [he, if_true, hcn, hz, if_pos hi, Bool.false_eq_true, if_false, ne_eq, not_true_eq_false]
+                exact (ok_none_iff _ _ _ _ _ _).mpr ⟨h, rfl⟩
+              · simp [if_neg hcond] at h
 
 /-- corollary in terms of the model's reader: absence from `skip_opt` ⇔ absence from the optional
     generic read `take_opt_value`, whatever its closure; same resulting state and source -/
@@ -1343,5 +1357,109 @@ theorem skip_absent_iff_read {α : Type} (c : Cons) (filter : σ → Tag → Boo
   unfold takeOptValue
   rw [pnv_eq c op g hf, pnv_absent_iff, skip_absent_iff c filter st g hf N hN]
   simp
+
+
+/-! ### `skip_one` against the generic reader of the model -/
+
+theorem run_skipOne (c : Cons) (N : Nat) (g : G0) :
+    runG0 (skipOne c N) g =
+      match runG0 (skipOpt c acceptAll () N) g with
+      | .ok ((r, c', _), g') => .ok ((r, c'), g')
+      | .error e => .error e := by
+  unfold skipOne
+  simp only [runG0_bind]
+  cases runG0 (skipOpt c acceptAll () N) g with
+  | error e => rfl
+  | ok x => obtain ⟨⟨r, c', u⟩, g'⟩ := x; rfl
+
+theorem bodyF_eoc_not_some {α : Type} (c : Cons) (op : Tag → Content → Prog (α × Content)) (g2 : G0) (id : Ident)
+    (len? : Option Nat) (he : isEocIdent id = true) (a : α) (c' : Cons) (g' : G0) :
+    bodyF c op g2 id len? ≠ .ok ((some a, c'), g') := by
+  unfold bodyF
+  simp only [he, if_true]
+  repeat' split
+  all_goals simp
+
+/-- `skip_one` on a value the grammar accepts -/
+theorem skipOne_value (c : Cons) (g : G0) (hf : g.frames = []) (h1 : c.state ≠ .done)
+    (h2 : ¬ (c.state = .definite ∧ g.limit = none))
+    (f : Nat) (t : Tree) (rest : Bytes) (hp : parseValue (toM c.mode) f g.view = some (t, rest))
+    (N : Nat) (hN : hdrs t ≤ N) :
+    runG0 (skipOne c N) g = .ok ((some (), c), g.adv (g.view.length - rest.length)) := by
+  rw [run_skipOne, skip_value c acceptAll () g hf h1 h2 f t rest hp N hN, runFilter_acceptAll]
+  rfl
+
+/-- **Skipping the next value succeeds iff reading it generically succeeds, and advances
+    identically.**  For every `Constructed` (any state and mode) on every source without open
+    capture: `skip_one` returns `Some(())` with state `c'` and source `g'` (for some fuel) exactly when
+    the generic optional read `take_opt_value` with the tree-building closure returns some tree with
+    the same state `c'` and the same source `g'` (for some fuel). -/
+theorem skipOne_iff_read (c : Cons) (g : G0) (hf : g.frames = []) (c' : Cons) (g' : G0) :
+    (∃ N, runG0 (skipOne c N) g = .ok ((some (), c'), g')) ↔
+    (∃ f t, runG0 (takeOptValue c (readValue f)) g = .ok ((some t, c'), g')) := by
+  constructor
+  · rintro ⟨N, h⟩
+    rw [run_skipOne] at h
+    cases hs : runG0 (skipOpt c acceptAll () N) g with
+    | error e => rw [hs] at h; cases h
+    | ok x =>
+      obtain ⟨⟨r, c1, u⟩, g1⟩ := x
+      rw [hs] at h
+      simp only [Except.ok.injEq, Prod.mk.injEq] at h
+      obtain ⟨⟨hr, hc⟩, hg⟩ := h
+      subst hr; subst hc; subst hg
+      obtain ⟨f, t, rest, hp, _, hc, hg, _, h1, h2⟩ := skip_value_inv c acceptAll () g hf N c1 u g1 hs
+      obtain ⟨id0, k0, hri, he0⟩ := parseValue_ident _ _ _ _ hp
+      have hvne := view_nonempty_of_ident _ _ _ hri
+      refine ⟨f, t, ?_⟩
+      unfold takeOptValue
+      rw [pnv_eq c _ g hf, pnvF_value c f g h1 h2 (fun h => limit_ne_zero_of_view g hvne h.2) (fun h => hvne h.2)]
+      have hv := (refines f).2.2.2 c g hf (by
+        intro _ id k hr; rw [hri] at hr; cases hr; exact he0)
+      unfold specV at hv
+      rw [hp] at hv
+      simp only [Option.map] at hv
+      rw [rel0_some] at hv
+      rw [hv, hc, hg]
+  · rintro ⟨f, t, h⟩
+    unfold takeOptValue at h
+    rw [pnv_eq c _ g hf] at h
+    have h1 : c.state ≠ .done := by
+      intro hd; unfold pnvF at h; simp [hd] at h
+    have h2 : ¬ (c.state = .definite ∧ g.limit = none) := by
+      intro hd; unfold pnvF at h; rw [if_neg h1, if_pos hd] at h; cases h
+    have h3 : ¬ (c.state = .definite ∧ g.limit = some 0) := by
+      intro hd; unfold pnvF at h; rw [if_neg h1, if_neg h2, if_pos hd] at h; cases h
+    have h4 : ¬ (c.state = .unbounded ∧ g.view = []) := by
+      intro hd; unfold pnvF at h; rw [if_neg h1, if_neg h2, if_neg h3, if_pos hd] at h; cases h
+    rw [pnvF_value c f g h1 h2 h3 h4] at h
+    have hEoc : c.state = .indefinite → ∀ id k, readIdent g.view = some (id, k) → isEocIdent id = false := by
+      intro _ id k hri
+      cases he : isEocIdent id with
+      | false => rfl
+      | true =>
+        exfalso
+        unfold valuePart at h
+        cases hH : headerF c.mode g with
+        | none => rw [hH] at h; cases h
+        | some r =>
+          obtain ⟨⟨id', len?⟩, g2⟩ := r
+          obtain ⟨k', hri'⟩ := headerF_ident _ _ _ _ _ hH
+          rw [hri] at hri'
+          cases hri'
+          rw [hH] at h
+          exact bodyF_eoc_not_some c _ g2 id len? he t c' g' h
+    have hv := (refines f).2.2.2 c g hf hEoc
+    rw [h] at hv
+    unfold specV at hv
+    cases hp : parseValue (toM c.mode) f g.view with
+    | none => rw [hp] at hv; simp [Rel0] at hv
+    | some r =>
+      obtain ⟨t', rest⟩ := r
+      rw [hp] at hv
+      simp only [Option.map, Rel0, Prod.mk.injEq, Option.some.injEq] at hv
+      obtain ⟨⟨_, hc⟩, hg⟩ := hv
+      refine ⟨hdrs t', ?_⟩
+      rw [skipOne_value c g hf h1 h2 f t' rest hp _ (Nat.le_refl _), hc, hg]
 
 end Bcder.Props.C10
